@@ -2264,6 +2264,8 @@ class PyCdlib:
         self._parse_volume_descriptors()
 
         self.logical_block_size = self.pvd.logical_block_size()
+        if self.logical_block_size == 0:
+            raise pycdlibexception.PyCdlibInvalidISO('The logical block size cannot be zero')
 
         old = self._cdfp.tell()
         self._cdfp.seek(0)
